@@ -35,6 +35,7 @@ class Mul(Contract):
             return [c.forall(d + 1, c.D, lambda j: o[j] == S.CONV(x, y, j)), c.forall(0, d + 1, lambda j: o[j] == o0[j])]
         return {0: inv0}
     def oracle(self, inp, scal, cfg): return {self.out_key(cfg): SI.conv(inp['x_data'], inp['y_data'])}
+    def spec_lemmas(self, c): return [S.causality_lemma2(c, 'CONV', S.CONV, S.conv_def, recursive=False)]
 
 
 @register
@@ -70,6 +71,7 @@ class TrueDiv(Contract):
             return [c.forall(0, d, lambda j: z[j] == S.QUOT(x, y, j))] + c.unchanged('x_data', 'y_data', 'out')
         return {0: inv0}
     def oracle(self, inp, scal, cfg): return {'out': SI.quot(inp['x_data'], inp['y_data'])}
+    def spec_lemmas(self, c): return [S.causality_lemma2(c, 'QUOT', S.QUOT, S.quot_def, domain=lambda a, b: [b[0] != 0])]
 
 
 @register
@@ -106,6 +108,7 @@ class Reciprocal(Contract):
             return [c.forall(0, d, lambda j: z[j] == S.RECIP(y, j))] + c.unchanged('y_data', 'out')
         return {0: inv0}
     def oracle(self, inp, scal, cfg): return {self.out_key(cfg): SI.recip(inp['y_data'])}
+    def spec_lemmas(self, c): return [S.causality_lemma(c, 'RECIP', [S.RECIP], S.recip_def, domain=lambda a: [a[0] != 0])]
 
 
 # ---------------------------------------------------------------------------------------------- elementary kernels
@@ -120,13 +123,15 @@ class Elem1(Contract):
     def ensures(self, c):
         x = c.pre['x_data']; o = c.cur('out')
         return [('out[d] = %s(x,d)' % self.T.name(), c.forall(0, c.D, lambda j: o[j] == self.T(x, j)))]
-    SIF = None
+    SIF = None; DEF = None
     def oracle(self, inp, scal, cfg): return {self.out_key(cfg): getattr(SI, self.SIF)(inp['x_data'])}
+    def spec_lemmas(self, c):
+        return [S.causality_lemma(c, self.T.name(), [self.T], self.DEF, domain=self.domain)] if self.DEF is not None else []
 
 
 @register
 class Exp(Elem1):
-    qual = A('_exp'); SIF = 'exp'; T = S.EXP
+    qual = A('_exp'); DEF = staticmethod(S.exp_def); SIF = 'exp'; T = S.EXP
     cfgs = {'distinct': {}, 'out_none': {'out': None}}
     def ensures(self, c):
         x = c.pre['x_data']; o = c.outarr()
@@ -145,7 +150,7 @@ class Exp(Elem1):
 
 @register
 class Log(Elem1):
-    qual = A('_log'); SIF = 'log'; T = S.LOG
+    qual = A('_log'); DEF = staticmethod(S.log_def); SIF = 'log'; T = S.LOG
     def domain(self, x): return [x[0] != 0]
     def spec_instances(self, c, n): return S.log_def(c, c.pre['x_data'], n)
     def invariants(self):
@@ -175,53 +180,55 @@ class Pair(Contract):
             x = c.pre['x_data']; a, b = c.cur('out.0'), c.cur('out.1')
             return [c.forall(0, d, lambda j: z3.And(a[j] == self.T0(x, j), b[j] == self.T1(x, j)))] + c.unchanged('x_data')
         return {0: inv0}
-    SIF = None
+    SIF = None; DEF = None
     def oracle(self, inp, scal, cfg):
         a, b = getattr(SI, self.SIF)(inp['x_data']); return {'out.0': a, 'out.1': b}
+    def spec_lemmas(self, c):
+        return [S.causality_lemma(c, self.T0.name() + '/' + self.T1.name(), [self.T0, self.T1], self.DEF, domain=self.domain)] if self.DEF is not None else []
 
 
 @register
 class SinCos(Pair):
-    qual = A('_sincos'); SIF = 'sincos'; T0, T1 = S.SIN, S.COS
+    qual = A('_sincos'); DEF = staticmethod(S.sincos_def); SIF = 'sincos'; T0, T1 = S.SIN, S.COS
     def spec_instances(self, c, n): return S.sincos_def(c, c.pre['x_data'], n)
 
 @register
 class SinhCosh(Pair):
-    qual = A('_sinhcosh'); SIF = 'sinhcosh'; T0, T1 = S.SINH, S.COSH
+    qual = A('_sinhcosh'); DEF = staticmethod(S.sinhcosh_def); SIF = 'sinhcosh'; T0, T1 = S.SINH, S.COSH
     def spec_instances(self, c, n): return S.sinhcosh_def(c, c.pre['x_data'], n)
 
 @register
 class TanSec2(Pair):
-    qual = A('_tansec2'); SIF = 'tansec2'; T0, T1 = S.TAN, S.SEC2
+    qual = A('_tansec2'); DEF = staticmethod(S.tansec2_def); SIF = 'tansec2'; T0, T1 = S.TAN, S.SEC2
     def domain(self, x): return [S.np('cos')(x[0]) != 0]
     def spec_instances(self, c, n): return S.tansec2_def(c, c.pre['x_data'], n)
 
 @register
 class TanhSech2(Pair):
-    qual = A('_tanhsech2'); SIF = 'tanhsech2'; T0, T1 = S.TANH, S.SECH2
+    qual = A('_tanhsech2'); DEF = staticmethod(S.tanhsech2_def); SIF = 'tanhsech2'; T0, T1 = S.TANH, S.SECH2
     def spec_instances(self, c, n): return S.tanhsech2_def(c, c.pre['x_data'], n)
 
 @register
 class ArcSin(Pair):
-    qual = A('_arcsin'); SIF = 'arcsin'; T0, T1 = S.ASIN, S.ASINZ
+    qual = A('_arcsin'); DEF = staticmethod(S.arcsin_def); SIF = 'arcsin'; T0, T1 = S.ASIN, S.ASINZ
     def domain(self, x): return [S.np('cos')(S.np('arcsin')(x[0])) != 0]
     def spec_instances(self, c, n): return S.arcsin_def(c, c.pre['x_data'], n)
 
 @register
 class ArcCos(Pair):
-    qual = A('_arccos'); SIF = 'arccos'; T0, T1 = S.ACOS, S.ACOSZ
+    qual = A('_arccos'); DEF = staticmethod(S.arccos_def); SIF = 'arccos'; T0, T1 = S.ACOS, S.ACOSZ
     def domain(self, x): return [S.np('sin')(S.np('arccos')(x[0])) != 0]
     def spec_instances(self, c, n): return S.arccos_def(c, c.pre['x_data'], n)
 
 @register
 class ArcTan(Pair):
-    qual = A('_arctan'); SIF = 'arctan'; T0, T1 = S.ATAN, S.ATANZ
+    qual = A('_arctan'); DEF = staticmethod(S.arctan_def); SIF = 'arctan'; T0, T1 = S.ATAN, S.ATANZ
     def spec_instances(self, c, n): return S.arctan_def(c, c.pre['x_data'], n)
 
 
 @register
 class Sqrt(Elem1):
-    qual = A('_sqrt'); SIF = 'sqrt'; T = S.SQRT
+    qual = A('_sqrt'); DEF = staticmethod(S.sqrt_def); SIF = 'sqrt'; T = S.SQRT
     def domain(self, x): return [S.np('sqrt')(x[0]) != 0]
     def spec_instances(self, c, n): return S.sqrt_def(c, c.pre['x_data'], n)
     def invariants(self):
@@ -496,10 +503,70 @@ class Expm1(Contract):
         return DER('nthderiv.expm1')(z3.IntVal(0), c.pre['x_data'][0])
     def defs(self, c, n):
         x = c.pre['x_data']
-        return [z3.Implies(n >= 1, toR(n) * self.EXPM1(x, n) == c.Sum(z3.IntVal(1), n, lambda k: toR(k) * x[k] * S.EXP(x, n - k))), self.EXPM1(x, 0) == self.f0(c)]
+        return [z3.Implies(n >= 1, self.EXPM1(x, n) == c.Sum(z3.IntVal(1), n, lambda k: toR(k) * x[k] * S.EXP(x, n - k)) / toR(n)), self.EXPM1(x, 0) == self.f0(c)]
     def ensures(self, c):
         x = c.pre['x_data']; o = c.outarr()
         return [("theta(y) = exp(x) (*) theta(x), y[0] = expm1(x0)", c.forall(0, c.D, lambda j: o[j] == self.EXPM1(x, j)))]
     def spec_instances(self, c, n): return self.defs(c, n)
     def oracle(self, inp, scal, cfg):
         import math; x = inp['x_data']; return {self.out_key(cfg): SI.bfwf(x, SI.exp(x), math.expm1(x[0]))}
+
+
+# ---------------------------------------------------------------------------------------------- Faa di Bruno (generic special functions)
+PWR = z3.Function('PWR', S.ARR, S.I, S.I, S.R)        # PWR(x,n,k) = [t^k] (x(t) - x_0)^n      (n >= 1, k >= 1)
+def pwr_def(c, x, n, k):
+    return [z3.Implies(n == 1, PWR(x, n, k) == x[k]),
+            z3.Implies(n >= 2, PWR(x, n, k) == c.Sum(z3.IntVal(1), k - 1, lambda j: PWR(x, n - 1, j) * x[k - j]))]
+
+@register
+class EvalSlowGeneric(Contract):
+    """y_0 = f(x_0);  y_k = sum_{n=1}^{D-1} f^(n)(x_0)/n! * [t^k](x(t)-x_0)^n   (Faa di Bruno; the terms with n > k vanish)"""
+    qual = '_eval_slow_generic'; arrays = ('x_data', 'out'); scalars = {'f': 'func'}; modifies = ('out',); returns = 'out'
+    cfgs = {'distinct': {}, 'out_none': {'out': None}}
+    property_ids = ('C01', 'C14')
+    skolem_instances = True
+    bounded_D = (1, 2, 3, 4, 5); bounded_D_thorough = (1, 2, 3, 4, 5, 6, 7)
+    def der(self, c, n):
+        from vc.engine import DER
+        f = scalar_of(c, 'f'); tag = f.name + ''.join('|' + str(b.t) for b in f.bound)
+        return DER(tag)(n, c.pre['x_data'][0])
+    def coef(self, c, n):
+        from vc.engine import FACT
+        return self.der(c, n) / toR(FACT(n))
+    def ensures(self, c):
+        x = c.pre['x_data']; o = c.outarr()
+        return [('y[0] = f(x0)', o[0] == self.der(c, z3.IntVal(0))),
+                ('y[k] = sum_n f^(n)(x0)/n! [t^k](x-x0)^n', c.forall(1, c.D, lambda k: o[k] == c.Sum(z3.IntVal(1), c.D - 1, lambda n: self.coef(c, n) * PWR(x, n, k))))]
+    def spec_instances(self, c, j):
+        # PWR definition at (d, j+1) / (d, j) for the current order d of the outer loop
+        x = c.pre['x_data']; d = c.st.env.get('d'); out = []
+        if isinstance(d, IntV):
+            out += pwr_def(c, x, d.t, j + 1) + pwr_def(c, x, d.t, j) + pwr_def(c, x, d.t - 1, j)
+        return out
+    def invariants(self):
+        def inv_d(c, d):
+            x = c.pre['x_data']; y = c.local('y_data')
+            parts = [y[0] == self.der(c, z3.IntVal(0)), c.forall(1, c.D, lambda k: y[k] == c.Sum(z3.IntVal(1), d - 1, lambda n: self.coef(c, n) * PWR(x, n, k)))] + c.unchanged('x_data')
+            if c.has_local('accum'):
+                a = c.local('accum'); parts.append(z3.Implies(d >= 2, c.forall(0, c.D - 1, lambda i: a[i] == PWR(x, d - 1, i + 1))))
+            return parts
+        def inv_i(c, i):          # descending i: entries above i hold the new power, entries <= i the old one
+            x = c.pre['x_data']; y = c.local('y_data'); a = c.local('accum'); d = c.scalar('d')
+            return [y[0] == self.der(c, z3.IntVal(0)), c.forall(1, c.D, lambda k: y[k] == c.Sum(z3.IntVal(1), d - 1, lambda n: self.coef(c, n) * PWR(x, n, k))),
+                    c.forall(i + 1, c.D - 1, lambda j: a[j] == PWR(x, d, j + 1)), c.forall(0, i + 1, lambda j: a[j] == PWR(x, d - 1, j + 1))] + c.unchanged('x_data')
+        return {0: inv_d, 1: inv_i}
+    def concrete_instances(self, c, D):
+        import math
+        from vc.engine import FACT
+        x = c.pre['x_data']; out = [FACT(z3.IntVal(n)) == math.factorial(n) for n in range(0, D + 1)]
+        for n in range(1, D):
+            for k in range(1, D): out += pwr_def(c, x, z3.IntVal(n), z3.IntVal(k))
+        return out
+    def native_scalars(self, cfg, rng):
+        import numpy
+        def f(x, out=None, n=0): return numpy.exp(2.0 * x) * 2.0 ** n
+        return {'f': f}
+    def oracle(self, inp, scal, cfg):
+        import math
+        x = inp['x_data']; D = len(x); ders = [math.exp(2.0 * x[0]) * 2.0 ** n for n in range(D)]
+        return {self.out_key(cfg): SI.compose_faa(x, ders)}
